@@ -19,6 +19,7 @@ package banner
 import (
 	"bytes"
 	"context"
+	"html"
 	"net/http"
 	"net/url"
 	"strings"
@@ -153,6 +154,18 @@ func (w *bannerResponseWriter) getFavIconLink() (string, error) {
 	return favIconLinkBuf.String(), nil
 }
 
+// frameSource returns the text to put into the `src` attribute of the frame for the given request URL.
+func frameSource(targetURL *url.URL) string {
+	src := targetURL.String()
+	if targetURL.Host == "" && strings.HasPrefix(src, "//") {
+		// A browser would take the first segment of such a path for a host name.
+		src = "/." + src
+	}
+	// The URL goes into an HTML attribute as it is: "&", quotes and angle brackets in it must
+	// neither end the attribute nor be read as character references.
+	return html.EscapeString(src)
+}
+
 func (w *bannerResponseWriter) getBanner(favIconLink string) ([]byte, error) {
 	var templateBuf bytes.Buffer
 	templateVals := &struct {
@@ -161,7 +174,7 @@ func (w *bannerResponseWriter) getBanner(favIconLink string) ([]byte, error) {
 		BannerHeight string
 		FavIconLink  string
 	}{
-		TargetURL:    w.targetURL.String(),
+		TargetURL:    frameSource(w.targetURL),
 		Banner:       w.bannerHTML,
 		BannerHeight: w.bannerHeight,
 		FavIconLink:  favIconLink,
